@@ -159,14 +159,20 @@ func (d *DNSFilter) filterSetProperties(
 			// Download the filter contents.
 			shouldRestart, err = d.update(flt)
 			if err == nil && !shouldRestart {
-				// The new contents have the checksum of an unloaded list,
-				// that is they have no rules.  Don't let the rules stored
-				// before the list was disabled or its URL changed come back
-				// with the next engine rebuild.
-				err = os.Remove(flt.Path(d.conf.DataDir))
-				if errors.Is(err, os.ErrNotExist) {
-					err = nil
+				if flt.checksum == 0 {
+					// The new contents have the checksum of an unloaded
+					// list, that is they have no rules.  Don't let the
+					// rules stored before the list was disabled or its URL
+					// changed come back with the next engine rebuild.
+					err = os.Remove(flt.Path(d.conf.DataDir))
+					if errors.Is(err, os.ErrNotExist) {
+						err = nil
+					}
 				}
+
+				// Otherwise the entry has got its checksum back while it
+				// was disabled, from a refresh that was already downloading
+				// it, and the stored file has these very contents.
 
 				shouldRestart = true
 			}
